@@ -221,9 +221,13 @@ def gen_pairs(ctx, rng, count, ref=None):
             defaults = {"timeShiftBufferDepth": int(opts.pop("depth"))}
             if opts.get("mup") not in (None, "-1"):
                 defaults["minimumUpdatePeriod"] = int(opts.pop("mup"))
-        q = "&".join(f"{k}={v}" for k, v in opts.items())
+        q = "&".join(f"{k}={v}" for k, v in opts.items() if not (k == "start" and v == "year" and i % 2 == 0))
+        # (`start=year` is the server default: every other such case leaves it to the default)
         out.append((stream, f"/dash/live/{stream}/{man}?{q}", t1, t1 + delta, kind, opts, defaults))
     return out
+
+
+NEIGHBOUR_DEFAULTS = {"availabilityStartTime": "epoch", "timeShiftBufferDepth": 37, "minimumUpdatePeriod": 5, "leeway": 1}
 
 
 def set_stream_defaults(app, stream, defaults):
@@ -233,7 +237,7 @@ def set_stream_defaults(app, stream, defaults):
         models.db.session.commit()
 
 
-def ch_pair(ctx) -> Channel:
+def ch_pair(ctx, cases=None) -> Channel:
     import appboot
     import segchecks
     import segwalk
@@ -255,7 +259,7 @@ def ch_pair(ctx) -> Channel:
         for st_ in ("bbb", "tears", "syn1", "syn2", "syn3", "syn4", "syn5"):
             t0 = next(iter(segchecks.tracks(app, st_).values()))
             ref[st_] = t0.ref_dur / t0.ref_ts
-        for stream, url, t1, t2, kind, opts, defaults in gen_pairs(ctx, rng, ctx.scale(48, 2000), ref):
+        for stream, url, t1, t2, kind, opts, defaults in (cases or gen_pairs(ctx, rng, ctx.scale(48, 2000), ref)):
             ch.evaluations += 1
             ch.count(f"delta:{kind}")
             set_stream_defaults(app, stream, defaults)
@@ -265,6 +269,13 @@ def ch_pair(ctx) -> Channel:
             trk = segchecks.tracks(app, stream)
             clock.set(t1)
             r1 = client.get(url)
+            # another client, between the two requests, asks for a *different* stream whose stream defaults set
+            # every timing option: nothing of that may reach the stream under test (no state carried over)
+            other = "tears" if stream != "tears" else "syn1"
+            set_stream_defaults(app, other, NEIGHBOUR_DEFAULTS)
+            rn = client.get(f"/dash/live/{other}/hand_made.mpd?timeline=1")
+            ch.count(f"neighbour_status={rn.status_code}")
+            set_stream_defaults(app, other, None)
             clock.set(t2)
             r2 = client.get(url)
             if r1.status_code != 200 or r2.status_code != 200:
@@ -278,8 +289,19 @@ def ch_pair(ctx) -> Channel:
             if m2.publish_us < m1.publish_us or m2.ast_us < m1.ast_us:
                 ch.oracle_failures.append({**case, "kind": "time-moves-back",
                                            "ast_changed": m1.ast_us != m2.ast_us,
+                                           "ast_us": [m1.ast_us, m2.ast_us], "publish_us": [m1.publish_us, m2.publish_us],
+                                           "mup_us": m2.mup_us if hasattr(m2, "mup_us") else None,
+                                           "start": opts.get("start"),
                                            "what": f"publishTime {m1.publish_us}->{m2.publish_us}, AST {m1.ast_us}->{m2.ast_us}"})
             same_ast = m1.ast_us == m2.ast_us
+            root_a, root_b = etree.fromstring(r1.data), etree.fromstring(r2.data)
+            if kind != "rollover":
+                for attr in ("availabilityStartTime", "minimumUpdatePeriod", "timeShiftBufferDepth"):
+                    if root_a.get(attr) != root_b.get(attr):
+                        ch.oracle_failures.append({**case, "kind": "same-request-different-" + attr,
+                                                   "what": f"MPD@{attr} {root_a.get(attr)} at T1, {root_b.get(attr)} at T2 "
+                                                           f"for the same URL (stream at least depth + 2 s old, no symbolic roll-over between)"})
+                        break
             overlap = False
             for a, b in zip(m1.reps, m2.reps):
                 if a.rep_id != b.rep_id or a.timeline is None or b.timeline is None or not same_ast:
@@ -370,9 +392,18 @@ def channels(ctx):
 def matches_finding(finding, failure):
     """publishTime steps back (by less than one update period, C08 publish_mono_across_restart)
     when a symbolic start rolls over between the two requests"""
-    return (finding.get("class") == "publish-steps-back-across-symbolic-rollover"
-            and failure.get("kind") in ("time-moves-back", "patch-not-equivalent")
-            and bool(failure.get("ast_changed")))
+    if finding.get("class") != "publish-steps-back-across-symbolic-rollover" or not failure.get("ast_changed"):
+        return False
+    if failure.get("kind") == "patch-not-equivalent":
+        return failure.get("delta") == "rollover"
+    if failure.get("kind") != "time-moves-back":
+        return False
+    # the known class: a *symbolic* start whose resolved availabilityStartTime moved FORWARD (yesterday -> today)
+    # while publishTime stepped back by less than one day's worth of quantisation; any other step back – e.g.
+    # availabilityStartTime itself moving backwards – is not this finding
+    a, p_ = failure.get("ast_us"), failure.get("publish_us")
+    return (failure.get("start") in ("today", "month", "year") and bool(a) and bool(p_)
+            and a[1] > a[0] and 0 < p_[0] - p_[1] < 86400 * 10 ** 6)
 
 
 def replay_finding(ctx, finding):
@@ -399,7 +430,11 @@ def search(ctx, disagreements):
                                rng=lambda name: common.rng_for(ctx.seed + 32452843, name),
                                scale=lambda q, t: t if ctx.thorough else max(q, t // 5))
     ch = ch_pair(c2)
-    return ch.oracle_failures[0] if ch.oracle_failures else None
+    open_f = [f for f in common.load_ledger() if f.get("property") == PROP and f.get("status") == "open"]
+    for x in ch.oracle_failures:
+        if not any(matches_finding(f, x) for f in open_f):
+            return x
+    return None
 
 
 def replay(ctx, payload):
@@ -416,7 +451,14 @@ def replay(ctx, payload):
             out["status_t1"] = c.get(f["url"]).status_code
             clock.set(f["t2"])
             out["status_t2"] = c.get(f["url"]).status_code
-        out["fails"] = None
-        out["expected"] = f
+        import urllib.parse
+        q = dict(urllib.parse.parse_qsl(urllib.parse.urlsplit(f["url"]).query))
+        opts = {"start": q.get("start", "year"), **{k: v for k, v in q.items() if k != "start"}}
+        parse = lambda t: datetime.datetime.fromisoformat(t.replace("Z", "+00:00"))
+        ch = ch_pair(ctx, cases=[(f["stream"], f["url"], parse(f["t1"]), parse(f["t2"]), f.get("delta", "replay"),
+                                  opts, f.get("stream_defaults"))])
+        same = [x for x in ch.oracle_failures if x.get("kind") == f.get("kind")]
+        out["fails"] = bool(same) or bool(ch.disagreements and not ch.oracle_failures and f.get("kind") is None)
+        out["observed"] = (same or ch.oracle_failures or ch.disagreements)[:2]
         return out
     return {"fails": False, "note": "replay names a broken obligation", "payload": payload.get("broken")}
